@@ -900,10 +900,30 @@ def card_hands(n):
     return out
 
 
+def word_hands(n, seed=0):
+    """Hands of n arbitrary words: every ordered pair of a small alphabet (cards, marked cards, near-card junk, extreme
+    words) in every pair of adjacent slots, plus seeded random hands over the alphabet and random 32-bit words."""
+    import random
+    rnd = random.Random(1103 + seed)
+    AS, KS, C2 = oracle.card_word(12, 3), oracle.card_word(11, 3), oracle.card_word(0, 0)
+    alpha = [0, 1, 2, 0xFFF, 0x1000, AS, AS | (1 << 29), AS ^ 1, AS ^ 0x100, KS, C2, C2 | (1 << 31), 0x80000000, 0xFFFFFFFF, 0x7FFFFFFF]
+    out = []
+    for a in alpha:
+        for b in alpha:
+            for pos in range(n - 1):
+                h = [alpha[(3 * i + 1) % len(alpha)] for i in range(n)]
+                h[pos], h[pos + 1] = a, b
+                out.append(h)
+    for _ in range(1500):
+        out.append([rnd.choice(alpha) if rnd.random() < 0.7 else rnd.getrandbits(32) for _i in range(n)])
+    return out
+
+
 def refute_sort_on_cards(ctx, elems, names):
-    """-> first (input, output) on which `elems` (result slots over atoms `names`) is not the descending rearrangement"""
+    """-> first (input, output) on which `elems` (result slots over atoms `names`) is not the descending rearrangement:
+    card hands first, then hands of arbitrary words"""
     n = len(names)
-    for hand in card_hands(n):
+    for hand in card_hands(n) + word_hands(n, ctx.rep.seed):
         env = dict(zip(names, hand))
         got = [cval(ctx.fold(x, env)) for x in elems]
         if got != sorted(hand, reverse=True):
